@@ -234,6 +234,10 @@ def main(args: Any) -> int:
         from vf import c20_daemon_loop
 
         c20_daemon_loop.run(rep, args.tier)
+    if not getattr(args, "only", None) or "K4" in args.only:
+        from vf import c20_recursion
+
+        c20_recursion.run(rep, args.tier)
     return rep.finish()
 
 
